@@ -34,13 +34,22 @@ LEVEL_NOTE = ("mostly configuration/input space; the simulator contributes the s
 
 def generate(tape, tier="quick"):
     a = gen_structured(tape, max_dim=3, max_len=4)
-    rel = tape.weighted([("relayout", 7), ("same", 2), ("other_loc", 1), ("perturbed", 2)])
+    rel = tape.weighted([("relayout", 7), ("same", 2), ("other_loc", 1), ("perturbed", 2), ("swapped", 1)])
     if rel == "same":
         b = dict(a)
     else:
         b = relayout(tape, a)
         if rel == "other_loc":
             b["loc"] = "points" if b["loc"] == "cells" else "cells"
+        elif rel == "swapped":
+            # the same number of data locations, the extents of two axes exchanged (3 x 4 cells against 4 x 3)
+            if len(b["dims"]) >= 2 and b["dims"][0] != b["dims"][-1]:
+                for key in ("dims", "spacing", "origin", "axes"):
+                    if key in b:
+                        b[key] = list(b[key])
+                        b[key][0], b[key][-1] = b[key][-1], b[key][0]
+            else:
+                rel = "relayout"
         elif rel == "perturbed":
             k = tape.draw(len(b["dims"]))
             if b["type"] == "uniform":
@@ -99,8 +108,14 @@ def execute(sc):
     # ---- compatibility relation
     same_set = ma.location_set() == mb.location_set() and ma.dim == mb.dim
     degenerate = all(len(a) == 1 for a in ma.axes)
-    comp = bool(ga.compatible_with(gb))
-    comp_r = bool(gb.compatible_with(ga))
+    try:
+        comp = bool(ga.compatible_with(gb))
+        comp_r = bool(gb.compatible_with(ga))
+        _ = (ga == gb), (gb == ga)
+    except Exception as e:      # noqa: BLE001
+        v("compat-relation", type(e).__name__, f"compatible_with / == raised {type(e).__name__}: {str(e)[:200]} for "
+          f"{sc['a']} vs {sc['b']}")
+        return result(sc, viol, False, ma, mb)
     if not degenerate:
         if comp != same_set or comp_r != same_set:
             v("compat-relation", str(same_set), f"compatible_with gives {comp}/{comp_r} but the data location sets are "
